@@ -47,17 +47,14 @@ func HarnessC11Pack(a []int) {
 	c1, c2 := nondetU8(), nondetU8()
 	src, dst := nondetU16(), nondetU16()
 	numbered := nondetBool()
-	seq := nondetU8() & 15
-	if !numbered {
-		seq = 0
-	}
+	seq := nondetU8() // any value: only the low four bits of a numbered unit reach the wire
 	ref := []byte{c11Codes[kind], byte(infoLen)}
 	ref = append(ref, info...)
 	ref = append(ref, c1, c2, byte(src>>8), byte(src), byte(dst>>8), byte(dst))
 	var unit TransportUnit
 	var tnum uint8
 	if numbered {
-		tnum = 0x40 | seq<<2
+		tnum = 0x40 | (seq&15)<<2
 	}
 	if isCtl == 1 {
 		cmd := nondetU8() & 3
